@@ -435,6 +435,17 @@ func genTransformProg() *rapid.Generator[*ast.Node] {
 			rapid.Just(ast.NumN(3)),
 			rapid.Just(ast.NameN("zz")),
 			rapid.Just(ast.StrN("s")),
+			// the same value at two places of the argument: only the place the
+			// pattern selects may change
+			rapid.Custom(func(t *rapid.T) *ast.Node {
+				x := rapid.SampledFrom([]*ast.Node{ast.VarN(""), name(), ast.PathN(name(), name())}).Draw(t, "dup")
+				k1 := rapid.SampledFrom(c07Names).Draw(t, "k1")
+				k2 := rapid.SampledFrom([]string{"p", "q"}).Draw(t, "k2")
+				if rapid.Bool().Draw(t, "asArray") {
+					return ast.ArrN(x, x.Clone())
+				}
+				return ast.N(ast.Obj, ast.StrN(k1), x, ast.StrN(k2), x.Clone())
+			}),
 		).Draw(t, "arg")
 		switch rapid.IntRange(0, 15).Draw(t, "apply") {
 		case 0:
